@@ -89,12 +89,14 @@ def render(p):
         o.append("@%s %s in %s;" % (b["kw"], d["ins"][b["i"] - 1], rng))
     if d["kind"] == "data":
         if not d["ins"]:
-            o.append("@Data {\n  value: %d.0\n};" % d["ys"][0])     # an integer token is rejected ("invalid type for option 'value'")
+            yd = d.get("yden", 1)
+            o.append("@Data {\n  value: %s\n};" % (("%d.0" % d["ys"][0]) if yd == 1 else repr(d["ys"][0] / yd)))     # an integer token is rejected ("invalid type for option 'value'")
         else:
             pts = list(zip(d["xs"], d["ys"]))
             if d["rev"]:
                 pts.reverse()
-            opts = ["values: {%s}" % ", ".join("%d: %d" % xy for xy in pts)]
+            yd = d.get("yden", 1)
+            opts = ["values: {%s}" % ", ".join(("%d: %d" % xy) if yd == 1 else ("%d: %s" % (xy[0], repr(xy[1] / yd))) for xy in pts)]
             if d["interp"]:
                 opts.append('interpolation: "%s"' % d["interp"])
             if d["extra"]:
